@@ -439,14 +439,21 @@ Definition lookup_builtin (name : str) (nargs : nat) : option builtin :=
   | None => None
   end.
 
-(* the comparator of `sort`; stable insertion sort (what a stable sort computes when the
-   comparator is a total preorder on the elements) *)
+(* the comparator of `sort`: numbers numerically (NaN last), then strings, then everything else;
+   stable insertion sort (what a stable sort computes when the comparator is a total preorder) *)
+Definition sort_rank (v : value) : Z :=
+  match v with VInt _ | VFloat _ => 0 | VStr _ => 1 | _ => 2 end.
+Definition bool_cmp (a b : bool) : comparison :=
+  match a, b with false, true => Lt | true, false => Gt | _, _ => Eq end.
 Definition sort_cmp (a b : value) : comparison :=
   match a, b with
   | VInt x, VInt y => Z.compare x y
-  | VFloat x, VFloat y => match f_cmp O x y with Some c => c | None => Eq end
+  | VFloat x, VFloat y =>
+      match f_cmp O x y with Some c => c | None => bool_cmp (f_is_nan O x) (f_is_nan O y) end
+  | VInt x, VFloat y => match cmp_int_float x y with Some c => c | None => Lt end
+  | VFloat x, VInt y => match cmp_int_float y x with Some c => CompOpp c | None => Gt end
   | VStr x, VStr y => str_cmp x y
-  | _, _ => Eq
+  | _, _ => Z.compare (sort_rank a) (sort_rank b)
   end.
 Fixpoint sort_insert (x : value) (l : list value) : list value :=
   match l with
